@@ -52,6 +52,14 @@ func (s SchemaSchema) applyNamespace() {
 		for _, output := range step.OutputsValue {
 			output.Schema().ApplySelf()
 		}
+		// The data schemas of signals are scopes of their own as well; without linking them, any
+		// reference in a received signal schema panics on first use.
+		for _, signal := range step.SignalHandlersValue {
+			signal.DataSchema().ApplySelf()
+		}
+		for _, signal := range step.SignalEmittersValue {
+			signal.DataSchema().ApplySelf()
+		}
 	}
 }
 
